@@ -186,7 +186,7 @@ def unescape_tla(s):
     return "".join(out)
 
 
-def generate(w, sub, tla, cfg, outfile, num=None, depth=None, seed=None, timeout=1800, exhaustive=False, consts=None):
+def generate(w, sub, tla, cfg, outfile, num=None, depth=None, seed=None, timeout=1800, exhaustive=False, consts=None, limit=None):
     """Leg 2a. Behaviours printed by the *_MBT spec as <<"MBT", "<json>">> lines."""
     d = w.copy_spec(sub)
     cfgp = os.path.join(d, cfg)
@@ -210,7 +210,7 @@ def generate(w, sub, tla, cfg, outfile, num=None, depth=None, seed=None, timeout
         for line in out.splitlines():
             if line.startswith(MBT_PREFIX) and line.endswith('">>'):
                 body = unescape_tla(line[len(MBT_PREFIX):-3])
-                if body in seen:
+                if body in seen or (limit and n >= limit):
                     continue
                 seen.add(body)
                 json.loads(body)
@@ -256,7 +256,7 @@ def validate(w, sub, tla, cfg, tracefile, timeout=1800, env=None):
         if m:
             (viols if m.group(1) == "VIOL" else drifts).append((int(m.group(2)), m.group(3)))
     gen, dist = parse_states(out)
-    if rc != 0 or "No error has been found" not in out or dist != nlines:
+    if rc != 0 or "No error has been found" not in out or dist not in (nlines, nlines + 1):
         log(out[-5000:])
         raise Inconclusive("trace validation %s did not consume the whole trace (rc=%d, %d of %d lines): "
                            "evaluation error or malformed trace, no verdict" % (tla, rc, dist, nlines))
@@ -307,9 +307,11 @@ def write_evidence(w, level, coverage, assumptions, violations):
     json.dump(ev, open(os.path.join(ROOT, "evidence", w.pid + ".json"), "w"), indent=1, sort_keys=True)
 
 
-def judge(w, pid, trace, behaviours, viols, bkey="b"):
+def judge(w, pid, trace, behaviours, viols, bkey="b", prefix=None):
     """Turn VIOL lines into KNOWN-FINDING / VIOLATION output. Returns number of new violations."""
     findings = known_findings(pid)
+    if prefix:
+        viols = [(k, n) for (k, n) in viols if n.startswith(prefix)]
     by_beh = {}
     for (k, name) in viols:
         line = trace[k - 1]
